@@ -51,7 +51,7 @@ def generate(family, rng, tier, force=None):
     busword = 32      # csr_data_width=8: hardware answers at byte address i, exports say 4*i (listed known finding C14-F1) -> via `force`
     p = {"bus_standard": rng.choice(["wishbone", "wishbone", "axi-lite", "axi"]), "bus_interconnect": rng.choice(["shared", "crossbar"]),
          "csr_data_width": busword, "csr_paging": rng.choice([0x800, 0x800, 0x400, 0x1000]), "csr_ordering": "big",
-         "with_ctrl": rng.random() < 0.7, "with_timer": rng.random() < 0.4, "csr_address_width": rng.choice([14, 14, 15, 16])}
+         "with_ctrl": rng.random() < 0.7, "with_timer": rng.random() < 0.4, "csr_address_width": rng.choice([14, 14, 15, 16]), "with_irq": rng.random() < 0.6}
     # csr_ordering="little": the generated accessors stay big-endian (listed known finding C14-F2) -> only via `force`
     if force:
         p.update(force)
@@ -68,6 +68,10 @@ def generate(family, rng, tier, force=None):
         n_locs = 4 * (1 << p["csr_address_width"]) // p["csr_paging"]
         # fixed locations include the upper half of the CSR address space (only reachable when every hop keeps the full address width)
         periphs.append({"name": "per%d" % k, "regs": regs, "loc": rng.choice([None, None, 5 + k, 9 + k, n_locs // 2 + 1 + k, n_locs - 1 - k])})
+        # interrupt of the peripheral (a level event source behind an EventManager): none, automatic or a fixed number
+        periphs[-1]["irq"] = rng.choice([None, "auto", "auto", [0, 7, 31][k % 3], 12 + k]) if p["with_irq"] else None
+    if p["with_irq"] and not any(x["irq"] is not None for x in periphs):
+        periphs[0]["irq"] = "auto"      # (a CPU with interrupts and no interrupt source at all makes SoC.finalize() raise: not generated)
     rams = []
     for k in range(rng.randint(1, 2)):
         rams.append({"name": "ram%d" % k, "origin": 0x20000000 + k * 0x10000000, "size": rng.choice([0x40, 0x100, 0x1000])})
@@ -125,6 +129,8 @@ def _run(scn, d):
         if len(viols) < 5:
             viols.append({"prop": "C14", "cls": cls, "observable": obs, "msg": msg, "cycle": cycle})
     objs = {}
+    irq_periphs = {}
+    from migen import Signal
 
     class Periph(Module, AutoCSR):
         def __init__(self, spec):
@@ -135,6 +141,14 @@ def _run(scn, d):
                     o = CSRStatus(r["size"], name=r["name"])
                 setattr(self, "_" + r["name"], o)
                 objs["%s_%s" % (spec["name"], r["name"])] = (r, o)
+            if spec.get("irq") is not None:
+                from litex.soc.interconnect.csr_eventmanager import EventManager, EventSourceLevel
+                self.trig = Signal(name=spec["name"] + "_trig")
+                self.submodules.ev = EventManager()
+                self.ev.e0 = EventSourceLevel(name="e0")
+                self.ev.finalize()
+                self.comb += self.ev.e0.trigger.eq(self.trig)
+                irq_periphs[spec["name"]] = self
     img_file = os.path.join(d, "rom.bin")
     with open(img_file, "wb") as f:
         f.write(bytes(scn["rom"]["image"]))
@@ -146,10 +160,16 @@ def _run(scn, d):
                              bus_timeout=64, csr_data_width=p["csr_data_width"], csr_paging=p["csr_paging"], csr_ordering=p["csr_ordering"],
                              csr_address_width=p.get("csr_address_width", 14), with_ctrl=p["with_ctrl"], with_timer=p["with_timer"])
             self.clock_domains.cd_sys = ClockDomain()
+            if p.get("with_irq"):
+                # the CPU stub: CPUNone plus an interrupt vector (what SoC.finalize() wires event managers to)
+                self.cpu.interrupt = Signal(32, name="cpu_interrupt")
+                self.irq.enable()
             for spec in scn["periphs"]:
                 setattr(self.submodules, spec["name"], Periph(spec))
                 if spec["loc"] is not None:
                     self.csr.add(spec["name"], n=spec["loc"])
+                if spec.get("irq") is not None:
+                    self.irq.add(spec["name"], n=None if spec["irq"] == "auto" else spec["irq"])
             self.tb = wishbone.Interface(data_width=32, adr_width=30)
             self.bus.add_master("tb", master=self.tb)
             for r in scn["rams"]:
@@ -271,6 +291,21 @@ def _run(scn, d):
             # one word beyond the region is unmapped: answered by the bus timeout (crossbars have none: C11-F1)
             ops.append({"we": 0, "adr": (base + size) >> 2, "dat": 0, "sel": 15, "gap": 1, "keep_cyc": 0})
             tests.append(("beyond", r["name"], 0, len(ops) - 1, len(ops) - 1))
+    # interrupts: enable every event through its generated accessor; the triggers are raised one at a time afterwards
+    irq_pub = {}
+    for name in sorted(irq_periphs):
+        mm = re.search(r"#define %s_INTERRUPT (\d+)" % name.upper(), soc_h)
+        checks += 1
+        if not mm:
+            V("export_mismatch", name + "_INTERRUPT", "peripheral %s has an interrupt, soc.h does not publish %s_INTERRUPT" % (name, name.upper()))
+            continue
+        irq_pub[name] = int(mm.group(1))
+        a = acc.get(name + "_ev_enable")
+        if a is None or "write" not in a:
+            V("accessor_missing", name + "_ev_enable", "no generated write accessor for %s_ev_enable" % name)
+            continue
+        for (sh, off) in a["write"]:
+            ops.append({"we": 1, "adr": (csr_base + off) >> 2, "dat": (1 >> sh) & 0xffffffff, "sel": 15, "gap": 2, "keep_cyc": 0})
     rom = scn["rom"]
     rbase = mem_hdr[rom["name"]]
     nwords = -(-len(rom["image"]) // 4)
@@ -282,16 +317,44 @@ def _run(scn, d):
     storages = [(n, o.storage) for n, (r, o) in sorted(objs.items()) if r["kind"] == "storage"]
     rows = []
 
+    irq_names = sorted(irq_pub)
+    irq_seen = {}       # name -> set of interrupt vector values sampled while only its trigger is high
+    WIN = 8
+
     class Dev(Agent):
-        reads = ()
+        reads = (soc.cpu.interrupt,) if irq_names else ()
+
+        def __init__(s_):
+            s_.t0 = None
+
+        def done(s_):
+            return not irq_names or (s_.t0 is not None and s_.t >= s_.t0 + WIN * (len(irq_names) + 1))
 
         def step(s_, v, t, w):
+            s_.t = t
             if t == 0:
                 for n, val in stat_vals.items():
                     w(objs[n][1].status, val)
-    bench = Bench(soc, max_cycles=len(ops) * 90 + 500, tail=6, fingerprint=False)
-    bench.add(Dev())
-    ma = bench.add(WBMaster(soc.tb, ops, name="cpu"))
+            if not irq_names:
+                return
+            if s_.t0 is None:
+                if ma.done():
+                    s_.t0 = t + 4
+                return
+            k, ph = divmod(t - s_.t0, WIN)
+            if t < s_.t0:
+                return
+            for i, n in enumerate(irq_names):
+                w(irq_periphs[n].trig, int(i == k and 1 <= ph <= WIN - 3))
+            if k < len(irq_names) and 4 <= ph <= WIN - 3:
+                irq_seen.setdefault(irq_names[k], set()).add(v[soc.cpu.interrupt])
+            if k == len(irq_names) and ph == 4:
+                irq_seen["<none>"] = {v[soc.cpu.interrupt]}
+    bench = Bench(soc, max_cycles=len(ops) * 90 + 500 + WIN * (len(irq_names) + 2), tail=6, fingerprint=False)
+    dev = Dev()
+    ma = WBMaster(soc.tb, ops, name="cpu")
+    bench.add(dev)
+    bench.add(ma)
     bench.add(PortRecorder([s for _, s in storages], lambda t, row: rows.append(row)))
     bench.run()
     if not ma.done():
@@ -349,10 +412,20 @@ def _run(scn, d):
                 else:
                     continue
                 break
+    # ---- interrupts: the published number is the bit of the CPU's interrupt vector that the peripheral raises, and only that one
+    for n in irq_names:
+        checks += 1
+        got = irq_seen.get(n)
+        exp = 1 << irq_pub[n]
+        if got != {exp}:
+            V("interrupt_number", n, "soc.h publishes %s_INTERRUPT %d: with only the event of %s raised (and enabled) the interrupt vector is %s, expected %#x"
+              % (n.upper(), irq_pub[n], n, sorted(hex(x) for x in (got or [])), exp))
+    if irq_names and irq_seen.get("<none>") not in (None, {0}):
+        V("interrupt_number", "cpu.interrupt", "interrupt vector is %s with no event raised" % sorted(hex(x) for x in irq_seen["<none>"]))
     regmap = sorted((n, i["addr"], i["size"]) for n, i in jregs.items())
     stats = {"cycles": bench.cycle["sys"], "checks": checks, "nontrivial": bool(multi and mems), "faults": {},
              "probes": {"registers_exported": len(jregs), "registers_exercised": len([t for t in tests if t[0] in ("w", "r")]),
-                        "bus_" + p["bus_standard"]: 1, "csr_width_%d" % bw: 1, "ordering_" + p["csr_ordering"]: 1}}
+                        "bus_" + p["bus_standard"]: 1, "csr_width_%d" % bw: 1, "ordering_" + p["csr_ordering"]: 1, "interrupts_exercised": len(irq_names)}}
     return {"violations": viols, "digest": hashlib.sha256(repr(regmap).encode()).hexdigest()[:16], "stats": stats}
 
 
